@@ -25,14 +25,14 @@ const ASSUME_SMALL: &str = "numeric small scope: components drawn from {0,1,2,(3
 
 fn part_c(prop: &str, tier: &str, sink: &Sink, ev: &mut Evidence) {
     let triples = prop == "C15";
-    // quick: quick leaf set to depth 2.  thorough: thorough leaf set to depth 2, and additionally the
+    // quick: quick leaf set to depth 2, tiny leaf set (bounds 1.0.0, 2.0.0) to depth 3.  thorough: thorough leaf set to depth 2, and additionally the
     // quick leaf set to depth 3 (every new depth-2 state against every leaf, both orders).
     // Both tiers additionally run the "exotic" leaf set (components above 2^32, tags whose numeric and
     // textual orders disagree): depth 1 in quick, depth 2 in thorough.
     let runs: Vec<(&str, bool, bool)> = if tier == "thorough" {
         vec![("thorough", true, false), ("quick", true, true), ("exotic", true, false), ("bits-all", false, false)]
     } else {
-        vec![(tier, true, false), ("exotic", false, false), ("bits", false, false)]
+        vec![(tier, true, false), ("tiny", true, true), ("exotic", false, false), ("bits", false, false)]
     };
     let mut per_run = vec![];
     for (leafset, depth2, depth3) in runs {
